@@ -97,6 +97,14 @@ ALL_BODIES = {}
 ALL_BODIES.update(CAL_BODIES)
 ALL_BODIES.update(CARD_BODIES)
 ALL_BODIES.update(UID_BODIES)
+# plain files (stored byte for byte, never validated)
+ALL_BODIES["TXT"] = b"".join(b"line %03d of a plain text file\n" % i for i in range(40))
+ALL_BODIES["TXT2"] = b"".join(b"LINE %03d of another plain text file\r\n" % i for i in range(55))
+# a valid calendar that is not in the server's canonical form (properties in another order, bare LF): stored as it is
+# when it is uploaded under a media type the server does not validate
+# (lower-case property name, a 100-character line that is not folded, bare LF, reversed order)
+ALL_BODIES["XRAW"] = ics("uid-raw", "raw", crlf=False, order="reversed", extra="description:" + "d" * 100).replace(b"SUMMARY:", b"summary:")
+ALL_BODIES["XRAW2"] = ics("uid-raw2", "raw two", crlf=False, order="reversed", extra="description:" + "e" * 100).replace(b"SUMMARY:", b"summary:")
 # not a calendar and not a card: what a collection's own configuration file looks like (uploaded under reserved names)
 ALL_BODIES["CFG"] = b"[DEFAULT]\ntype = addressbook\ndisplayname = hijacked\ncolor = #000000\n"
 
